@@ -552,7 +552,7 @@ func runC12(c *Ctx) error {
 	phase("parser")
 	// (4) header generation on raw integers (Itoa incl. negatives and the int64 extremes), and each side alone on foreign strings
 	genInts := append([]int{}, c12Bits...)
-	genInts = append(genInts, -15, 100, 1 << 20, math.MaxInt64, math.MinInt64, -1 << 40)
+	genInts = append(genInts, -15, 100, 1<<20, math.MaxInt64, math.MinInt64, -1<<40)
 	for f := 0; f < 4; f++ {
 		for _, sb := range genInts {
 			for _, cb := range genInts {
@@ -595,4 +595,3 @@ func runC12(c *Ctx) error {
 	phase("generators and one-sided")
 	return nil
 }
-
